@@ -175,6 +175,19 @@ class OFolder(Folder):
             return BoundMethod(obj, f, attr)
         if obj.payload is not None:
             return Folder.v_attr(self, obj.payload, attr)
+        # a data attribute assigned in a class body: ONE value per class, shared by every instance (and mutable in place)
+        cache = self.__dict__.setdefault("_class_attrs", {})
+        for m, c in self.src.mro(obj.mod, obj.cls):
+            key = (m, c.name, attr)
+            if key in cache:
+                return cache[key]
+            for st in c.body:
+                tgt = st.targets if isinstance(st, ast.Assign) else [st.target] if isinstance(st, ast.AnnAssign) and st.value is not None else []
+                if any(isinstance(t, ast.Name) and t.id == attr for t in tgt):
+                    env = dict(self.module(m))
+                    env.update(self.overrides.get(m, {}))
+                    cache[key] = self.expr(st.value, env)
+                    return cache[key]
         ga = self._find_method(obj, "__getattr__")
         if ga is not None:
             return self._inline(ga, [attr], {}, self_obj=obj)
@@ -720,7 +733,12 @@ class ObjInterp(BlockEval):
 
     def new(self, module, clsname, *args, **kw):
         cref = self.folder.module(module)[clsname]
-        return self.folder.construct(cref, list(args), kw)
+        mark = self.checkpoint()
+        obj = self.folder.construct(cref, list(args), kw)
+        why = self.dirty(mark, forks_matter=False)
+        if why:
+            raise AnalysisError("constructing %s.%s: %s" % (module, clsname, why))
+        return obj
 
 
 def _as_load(t):
